@@ -407,6 +407,18 @@ class Host@@(Schema):
     f: types.PositiveInt ^ List['Late@@'] = 1
 
 
+class M1_@@(Schema):
+    ks: List['Late@@'] = Field(default_factory=list)
+
+
+class M2_@@(Schema):
+    o: Optional['Late@@'] = None
+
+
+class Multi@@(M1_@@, M2_@@):
+    z: int = 0
+
+
 class Late@@(Schema):
     x: int = Field(ge=0, default=0)
 '''
@@ -439,6 +451,18 @@ Loc@@ = make@@()
 
 class Host@@(Schema):
     f: types.PositiveInt ^ List[Late@@] = 1
+
+
+class M1_@@(Schema):
+    ks: List[Late@@] = Field(default_factory=list)
+
+
+class M2_@@(Schema):
+    o: Optional[Late@@] = None
+
+
+class Multi@@(M1_@@, M2_@@):
+    z: int = 0
 '''
 
 
@@ -454,6 +478,17 @@ def _more(V, target):
                 outcome(getattr(fwd, 'Base%d' % n1), b={'x': 1})
                 outcome(getattr(direct, 'Base%d' % n2), b={'x': 1})
             d = {'b': late('b')} if V.bool('via_b') else {'ks': [late('k')]}
+        elif target == 'multiple-inheritance':
+            cls = 'Multi'
+            first = V.pick('first_use', ['none', 'M1_', 'M2_'])
+            if first != 'none':
+                outcome(getattr(fwd, first + str(n1)))
+                outcome(getattr(direct, first + str(n2)))
+            d = {}
+            if V.bool('has_ks'):
+                d['ks'] = [late('k')]
+            if V.bool('has_o'):
+                d['o'] = late('o')
         elif target == 'local-to-module':
             cls = 'Loc'
             d = {'m': late('m')} if V.bool('via_m') else {'u': late('u')}
@@ -467,11 +502,11 @@ def _more(V, target):
         unload(fwd, direct)
 
 
-for _t in ('subclass-before-base', 'local-to-module', 'xor-of-list'):
+for _t in ('subclass-before-base', 'local-to-module', 'xor-of-list', 'multiple-inheritance'):
     ob('more/' + _t, marks=[_t], budget=(100, 400),
        bounds="a subclass used before (or after) its base whose Optional['Late'] / List['Late'] references are still pending; a "
               "function-local class naming a module-level class defined later (Optional / Union); a forward reference nested in "
-              "PositiveInt ^ List['Late'] -- target %s; inputs solver ints in -3..3 / \"3\" / \"x\"; same outcome as the direct "
+              "PositiveInt ^ List['Late']; a class with two bases that each hold a pending reference to the same name (0..1 earlier use of a base) -- target %s; inputs solver ints in -3..3 / \"3\" / \"x\"; same outcome as the direct "
               'declarations' % _t)((lambda t: lambda V: _more(V, t))(_t))
 
 
